@@ -1,7 +1,7 @@
 (* C08 — Client handshake tolerates any server and reports establishment truthfully.  Statements only. *)
 From Coq Require Import List Bool Arith String.
 Import ListNotations.
-From Lime Require Import Hs.Types Hs.Client Hs.ClientSpec Hs.ClientFacts.
+From Lime Require Import Hs.Types Hs.Client Hs.ClientSpec Hs.ClientFacts Hs.ClientBuilder.
 Open Scope string_scope.
 Open Scope list_scope.
 
@@ -50,6 +50,24 @@ Proof.
   end. auto.
 Qed.
 Print Assumptions C08_build_ok_only_established.
+
+(* ---- client configurations made by a ClientBuilder (client.go; Model K, Hs/ClientBuilder.v) ---- *)
+(* Each aspect of the configuration - compression selector, encryption selector, authenticator - is decided by the
+   last builder call that concerns it, whatever other calls surround it; without such a call the defaults of
+   NewClientConfig apply. *)
+Theorem C08_builder_last_call_wins : forall ops,
+  kb_comp (krun ops) = last_sel pick_comp ops SelFirst /\
+  kb_enc (krun ops) = last_sel pick_enc ops SelDefaultEnc /\
+  kb_auth (krun ops) = last_auth ops None.
+Proof. exact builder_last_call_wins. Qed.
+Print Assumptions C08_builder_last_call_wins.
+
+(* A client built by any sequence of builder calls, on any transport, against any server script: the handshake
+   satisfies the specification above. *)
+Theorem C08_built_client_ok : forall ops k tls_ok ins,
+  c08_spec (cestablish c_repaired (conf_of (built_desc ops k tls_ok)) ins) = true.
+Proof. intros. apply client_ok. Qed.
+Print Assumptions C08_built_client_ok.
 
 (* the tree as found: a regressing state crashes the client *)
 Theorem C08_refuted_as_found :
